@@ -95,9 +95,11 @@ include hrefl htrans hleaf in
 theorem govExec_rel (m : Msg) (s : State) : R s (govExec wall s m).1 := by
   unfold govExec
   split
-  · rename_i s' r h
-    exact handle_rel wall R hrefl htrans hleaf m s s' r h
   · exact hrefl s
+  · split
+    · rename_i s' r h
+      exact handle_rel wall R hrefl htrans hleaf m s s' r h
+    · exact hrefl s
 
 end lift
 
@@ -132,5 +134,102 @@ theorem checkTx_rel (R : State → State → Prop) (hrefl : ∀ s, R s s) (order
     · split
       · exact hrefl s
       · rename_i s1 h1; exact hante s tx s1 h1
+
+/-! ### lifting with signer tracking
+
+`MaySign a` : somebody can make `a` the signer of an executed message — a user key holder, or the
+gov module for proposal messages.  `GrantsOK s` : every authz grant was given by such an address.
+A leaf handler then only ever runs for a message whose `GetSigners()[0]` may sign. -/
+
+def MaySign (a : Addr) : Prop := a < 1000 ∨ a = Mgov
+
+def GrantsOK (s : State) : Prop := ∀ g e k, (g, e, k) ∈ s.grants → MaySign g
+
+def Msg.SignedOK (m : Msg) : Prop := ∃ a, m.signer = some a ∧ MaySign a
+
+section signed
+variable (wall : Nat) (R : State → State → Prop)
+variable (hrefl : ∀ s, R s s) (htrans : ∀ a b c, R a b → R b c → R a c)
+variable (hleaf : ∀ s m s' r, m.isLeaf = true → GrantsOK s → m.SignedOK → execMsg wall s m = .ok (s', r) →
+    R s s' ∧ GrantsOK s')
+
+include hrefl htrans hleaf in
+theorem exec_signed_aux : ∀ n, (∀ m, m.depth ≤ n → ∀ s s' r, GrantsOK s → m.SignedOK →
+    execMsg wall s m = .ok (s', r) → R s s' ∧ GrantsOK s') := by
+  intro n
+  induction n with
+  | zero =>
+    intro m hm s s' r hg hs h
+    exact hleaf s m s' r (Msg.leaf_of_depth_zero m (by omega)) hg hs h
+  | succ n ih =>
+    intro m hm s s' r hg hs h
+    cases hm' : m.isLeaf with
+    | true => exact hleaf s m s' r hm' hg hs h
+    | false =>
+      cases m <;> simp [Msg.isLeaf] at hm'
+      rename_i g msgs
+      simp only [execMsg, bind_eq_ok, pure_eq_ok, Prod.mk.injEq, decodeM_eq_ok] at h
+      obtain ⟨grantee, hgd, s1, hd, rfl, _⟩ := h
+      -- the wrapper's signer is the grantee
+      have hgrantee : MaySign grantee := by
+        obtain ⟨a, ha, hpa⟩ := hs
+        simp only [Msg.signer, Msg.signerTok, Option.bind_some] at ha
+        rw [hgd] at ha; cases ha; exact hpa
+      simp only [Msg.depth] at hm
+      have hl : Msg.depthList msgs ≤ n := by omega
+      clear hm hs
+      have key : ∀ (msgs : List Msg), Msg.depthList msgs ≤ n → ∀ (s s1 : State), GrantsOK s →
+          dispatch wall grantee s msgs = .ok s1 → R s s1 ∧ GrantsOK s1 := by
+        intro msgs
+        induction msgs with
+        | nil =>
+          intro _ s s1 hg hd
+          simp only [dispatch, pure_eq_ok] at hd
+          subst hd; exact ⟨hrefl s, hg⟩
+        | cons m ms ihms =>
+          intro hl s s1 hg hd
+          simp only [dispatch, bind_eq_ok, require_eq_ok, Bool.or_eq_true, decide_eq_true_eq] at hd
+          obtain ⟨granter, hgr, _, hauth, _, _, x, hx, hrest⟩ := hd
+          simp only [Msg.depthList] at hl
+          have hsig : m.SignedOK := by
+            refine ⟨granter, ?_, ?_⟩
+            · unfold Msg.signerM at hgr; split at hgr <;> simp_all
+            · rcases hauth with he | hc
+              · rw [he]; exact hgrantee
+              · exact hg granter grantee m.kind (by simpa using hc)
+          obtain ⟨h1, hg1⟩ := ih m (by omega) s x.1 x.2 hg hsig (by cases x; exact hx)
+          obtain ⟨h2, hg2⟩ := ihms (by omega) x.1 s1 hg1 hrest
+          exact ⟨htrans _ _ _ h1 h2, hg2⟩
+      exact key msgs hl s s1 hg hd
+
+include hrefl htrans hleaf in
+/-- every message execution whose outermost signer may sign is an `R` step and keeps `GrantsOK` -/
+theorem exec_signed (m : Msg) (s s' : State) (r : Resp) (hg : GrantsOK s) (hs : m.SignedOK)
+    (h : execMsg wall s m = .ok (s', r)) : R s s' ∧ GrantsOK s' :=
+  exec_signed_aux wall R hrefl htrans hleaf m.depth m (Nat.le_refl _) s s' r hg hs h
+
+include hrefl htrans hleaf in
+theorem runMsgs_signed (msgs : List Msg) (s s' : State) (rs : List Resp) (hg : GrantsOK s)
+    (hs : ∀ m ∈ msgs, m.SignedOK) (h : runMsgs wall s msgs = .ok (s', rs)) : R s s' ∧ GrantsOK s' := by
+  unfold runMsgs at h
+  revert s rs
+  suffices ∀ (acc acc' : State × List Resp), GrantsOK acc.1 →
+      msgs.foldlM (fun (acc : State × List Resp) m => do
+        let (s', r) ← handle wall acc.1 m
+        pure (s', acc.2 ++ [r])) acc = .ok acc' → R acc.1 acc'.1 ∧ GrantsOK acc'.1 by
+    intro s rs hg h; exact this (s, []) (s', rs) hg h
+  induction msgs with
+  | nil => intro acc acc' hg h; simp [List.foldlM] at h; subst h; exact ⟨hrefl _, hg⟩
+  | cons m ms ih =>
+    intro acc acc' hg h
+    simp only [List.foldlM_cons, bind_eq_ok, pure_eq_ok] at h
+    obtain ⟨acc1, ⟨x, hx, rfl⟩, h2⟩ := h
+    simp only [handle, bind_eq_ok] at hx
+    obtain ⟨_, _, hx⟩ := hx
+    obtain ⟨h1, hg1⟩ := exec_signed wall R hrefl htrans hleaf m acc.1 x.1 x.2 hg (hs m (by simp)) (by cases x; exact hx)
+    obtain ⟨h3, hg3⟩ := ih (fun m' hm' => hs m' (by simp [hm'])) _ acc' hg1 h2
+    exact ⟨htrans _ _ _ h1 h3, hg3⟩
+
+end signed
 
 end Mainchain
